@@ -192,3 +192,7 @@ func init() {
 func init() {
 	claim("C11", "E1", "E2", "E3", "E4", "E5", "E6", "N4", "N6", "B3")
 }
+
+func init() {
+	claim("C12", "H1", "H2", "H3", "H4", "D2")
+}
